@@ -236,6 +236,10 @@ _t('C17', 'Theorem for every root r and hint list with cells below r^4 and digit
 _t('C18', 'Theorems: for EVERY permutation the shuffle may return, a feasible request yields exactly E distinct candidate edges between distinct vertices below V (no pair in both orientations under -u) and an infeasible one is refused (C18_gen); the executable valid_output accepts exactly such answers (valid_output_sound, gen_graph_valid); --convert is the identity / merges reversed duplicates (C18_convert, C18_convert_u); a clique of the colour graph covering every vertex exists iff the input is k-colourable (C18_colours). '
           'The randomness itself cannot be exhibited by a model: every real answer is judged by the extracted valid_output. Correspondence: (V,E) grid x flags x repeated runs; convert and colours on all small edge lists.', NOTE_GEN)
 
+# the tokenizer's tables are re-read from the source and their agreement with the model re-proved on every run (lib/vlib/srctab.py)
+PROPS['C08']['srctab'] = True
+PROPS['C01']['srctab'] = True
+
 # the state lint runs with every property whose model is the state-free tree model of the library
 # C13 through the set API as well: every BDDSet history ends with the table sweep of S-hist
 PROPS['C13']['suites'].append(dict(PROPS['C19']['suites'][0], exhaustive=False))
